@@ -576,7 +576,7 @@ impl Property for C10Lifetimes {
             1 => seq_strategy(SeqGen { kinds: &NON_LOG, configs: &CFGS, max_len: 300, origins: true, weights: [5, 4, 6, 3, 2, 1, 2, 0, 0, 0, 1, 2] }),
         ].boxed()
     }
-    fn cases(&self, tier: Tier) -> u32 { match tier { Tier::Quick => 20_000, Tier::Thorough => 400_000 } }
+    fn cases(&self, tier: Tier) -> u32 { match tier { Tier::Quick => 100_000, Tier::Thorough => 1_000_000 } }
     fn run(&self, case: &SeqCase) -> RunReport {
         let o = run(case, Strictness::Model, false);
         let nontrivial = o.recycled_after_leftovers;
@@ -604,7 +604,7 @@ impl Property for C16Seq {
         //                                                         cr dr sd  rc ra rl rla rs sr cr ca ln
         seq_strategy(SeqGen { kinds: &REJECTING, configs: &ALL_CFGS, max_len: 80, origins: true, weights: [1, 0, 12, 3, 1, 2, 1, 1, 1, 0, 0, 4] })
     }
-    fn cases(&self, tier: Tier) -> u32 { match tier { Tier::Quick => 20_000, Tier::Thorough => 400_000 } }
+    fn cases(&self, tier: Tier) -> u32 { match tier { Tier::Quick => 60_000, Tier::Thorough => 600_000 } }
     fn run(&self, case: &SeqCase) -> RunReport {
         let o = run(case, Strictness::Model, true);
         // a rejection followed, later, by an accepted send
@@ -631,7 +631,7 @@ impl Property for C05Seq {
         //                                                       cr dr sd rc ra rl rla rs sr cr ca ln
         seq_strategy(SeqGen { kinds: &NON_LOG, configs: &ALL_CFGS, max_len: 50, origins: false, weights: [2, 1, 8, 5, 1, 4, 1, 1, 1, 0, 0, 0] })
     }
-    fn cases(&self, tier: Tier) -> u32 { match tier { Tier::Quick => 15_000, Tier::Thorough => 300_000 } }
+    fn cases(&self, tier: Tier) -> u32 { match tier { Tier::Quick => 50_000, Tier::Thorough => 500_000 } }
     fn run(&self, case: &SeqCase) -> RunReport {
         let k = case.kind.short();
         let o = run(case, Strictness::Model, false);
